@@ -2186,6 +2186,15 @@ bool Parser::parseDirectDeclaratorSuffix(DeclaratorSyntax*& decltor,
                     break;
 
                 case SyntaxKind::AsteriskToken:
+                    // Only `[*]' is the unspecified-size form; otherwise the
+                    // size is an expression that begins with an indirection.
+                    if (peek(2).kind() != SyntaxKind::CloseBracketToken) {
+                        if (!parseExpressionWithPrecedenceAssignment(arrDecltorSx->expr_)) {
+                            skipTo(SyntaxKind::CloseBracketToken);
+                            return false;
+                        }
+                        break;
+                    }
                     checkDialect();
                     if (!validateContext(&Parser::DiagnosticsReporter::
                                          UnexpectedPointerInArrayDeclarator)) {
